@@ -292,7 +292,10 @@ where
         // place all probability mass on a single symbol).
         assert!(support.end() > support.start());
 
-        let support_size_minus_one = support.end().wrapping_sub(support.start()).as_();
+        // We have to use `slack` here (rather than a plain `wrapping_sub` followed by `as_`)
+        // because the difference may wrap around in a signed `Symbol` type that is narrower
+        // than `Probability` (e.g., `-61i8..=127i8`), in which case `as_` would sign-extend it.
+        let support_size_minus_one = slack::<Probability, _>(*support.end(), *support.start());
         let max_probability = Probability::max_value() >> (Probability::BITS - PRECISION);
         let free_weight = max_probability
             .checked_sub(&support_size_minus_one)
